@@ -79,6 +79,12 @@ pub const STRINGS: &[&str] = &[
     "x\n\ny",
     "@deprecated",
     "#import x from \"y\"",
+    // control characters other than the ones with a short escape (an ANSI colour sequence, NUL, DEL, unit separator)
+    "\u{1b}[1mbold\u{1b}[0m",
+    "nul\u{0}char",
+    "del\u{7f}end\u{1f}",
+    "two */ closers */ on a line",
+    "line\u{2028}and\u{2029}paragraph separators",
 ];
 
 pub fn g_name(ch: &mut Choices) -> String {
